@@ -14,11 +14,11 @@ const Prop = "C01"
 
 // Plans enumerates the histories: every single template, every ordered pair in two consecutive
 // blocks and in the same block; thorough adds pairs separated by a long gap and all triples.
-func Plans(tier string, tmpl []replica.Template, n int) []replica.Plan {
+func Plans(tier string, tmpl []replica.Template, n, nGovEnd int) []replica.Plan {
 	var out []replica.Plan
 	// governance changes (parameters, switches) followed by a use after they took effect, and the
-	// life-cycle chains
-	for g := n; g < len(tmpl); g++ {
+	// life-cycle chains (templates from nGovEnd on are used inside chains only)
+	for g := n; g < nGovEnd; g++ {
 		out = append(out, replica.Plan{Name: fmt.Sprintf("[%d]", g), Blocks: [][]int{{g}}, Tail: 6})
 		for i := 0; i < n; i++ {
 			out = append(out, replica.Plan{Name: fmt.Sprintf("[%d]...[%d]", g, i), Blocks: [][]int{{g}, {}, {}, {}, {}, {i}}, Tail: 2})
@@ -116,7 +116,9 @@ func Worker(shard, n int, tier string) *engine.Result {
 	f := replica.NewFix()
 	base := replica.Templates()
 	tmpl := append(append([]replica.Template{}, base...), replica.GovTemplates()...)
-	plans := Plans(tier, tmpl, len(base))
+	nGovEnd := len(tmpl)
+	tmpl = append(tmpl, replica.ChainTemplates()...)
+	plans := Plans(tier, tmpl, len(base), nGovEnd)
 	res.Extra["histories"] = len(plans)
 	res.Extra["templates"] = len(tmpl)
 	vsAll, vsQuick := variants(tier), variants("quick")
@@ -213,7 +215,7 @@ func firstTemplate(p replica.Plan, t []replica.Template) string {
 func Run(tier string) int {
 	start := time.Now()
 	res := engine.RunSharded(Prop, tier, 16, Worker)
-	tmpl := append(replica.Templates(), replica.GovTemplates()...)
+	tmpl := append(append(replica.Templates(), replica.GovTemplates()...), replica.ChainTemplates()...)
 	var names []string
 	for _, t := range tmpl {
 		names = append(names, t.Name)
